@@ -77,6 +77,31 @@ class C11(PropCheck):
             n += 1
             out.append(Case("w%d" % n, "EVAL", [("q", ("sel", "wild"), ("sel", sel)), nested], {"nested": True}))
             n += 1
+        # the same through the PARSER: the text $[a:b:c] / $[i] in every spelling of absent parts, with and without blanks
+        def slice_text(a, b, c):
+            sp = (lambda: self.rng.choice(["", "", " ", "  ", "\t"])) if self.rng.random() < 0.3 else (lambda: "")
+            t = "$[" + sp() + ("" if a is None else str(a)) + sp() + ":" + sp() + ("" if b is None else str(b)) + sp()
+            if c is not None:
+                t += ":" + sp() + str(c) + sp()
+            elif self.rng.random() < 0.5:
+                t += ":" + sp()
+            return t + "]"
+        k = 0
+        for (a, b, c) in triples:
+            for L in self.rng.sample(range(0, 8), 2 if self.tier == "quick" else 8):
+                text = slice_text(a, b, c)
+                out.append(Case("ts%d" % k, "STR", [S(text), arr(L)], {"len": L, "slice": [a, b, c], "text": text}, impl=("E2E", [S(text), arr(L)])))
+                k += 1
+        for (a, b, c) in triples_ext[:1500]:
+            L = self.rng.randrange(0, 8)
+            text = slice_text(a, b, c)
+            out.append(Case("tx%d" % k, "STR", [S(text), arr(L)], {"len": L, "slice": [a, b, c], "text": text}, impl=("E2E", [S(text), arr(L)])))
+            k += 1
+        for L in range(0, 9):
+            for i in idxs:
+                text = "$[%s%d%s]" % (self.rng.choice(["", "", " "]), i, self.rng.choice(["", "", " "]))
+                out.append(Case("ti%d" % k, "STR", [S(text), arr(L)], {"len": L, "idx": i, "text": text}, impl=("E2E", [S(text), arr(L)])))
+                k += 1
         self.exhaustive = True
         return out
 
@@ -260,6 +285,36 @@ def d7_applies(K):
     return not K.get("names_plain", True)
 
 
+def neg_index_path_cases(rng, n, tag):
+    """(query text, document) where the text is a path of name and index steps to an existing node with index steps
+    spelled negative (len-relative), names in shorthand or brackets"""
+    out = []
+    g = gen.Gen(rng, gen.Profile(max_depth=4))
+    tries = 0
+    while len(out) < n and tries < n * 30:
+        tries += 1
+        d = g.doc()
+        cands = [l for l, _ in doc_locations(d) if l and loc_plain_py(l) and any(k == "i" for k, _ in l)]
+        if not cands:
+            continue
+        loc = rng.choice(cands)
+        text, cur, q = "$", d, ["q"]
+        for kind, v in loc:
+            if kind == "i":
+                ln = len(cur) - 1
+                w = v - ln if rng.random() < 0.7 else v
+                text += "[%d]" % w
+                q.append(("sel", ("idx", w)))
+                cur = cur[1 + v]
+            else:
+                short = v and all(ch.isalpha() or ch == "_" for ch in v) and all(ord(ch) < 128 for ch in v)
+                text += ("." + v) if (short and rng.random() < 0.5) else ("['" + v + "']")
+                q.append(("sel", ("name", S(v if (short and text.endswith("." + v)) else "'" + v + "'"))))
+                cur = dict((unS(k), x) for k, x in cur[1:])[v]
+        out.append(Case("%s%d" % (tag, len(out)), "STR", [S(text), d], {"query": text, "table": "negative-index-path"}, impl=("E2E", [S(text), d])))
+    return out
+
+
 NUM_SPELLINGS = [
     ["0.3", "3e-1", "30e-2", "0.03e1", "3E-1", "0.30", "300e-3"],
     ["0.6", "6e-1", "60e-2", "0.06E1"],
@@ -397,6 +452,23 @@ class C01(EvalProp):
                                 (("q", ("sel", ("filter", ("atom", ("atest", ("rel", ("sel", ("name", S(name)))), 0))))), "$[?@.%s]" % name)):
                     out.append(Case("w%d" % k, "EVAL", [q, d], {"query": text, "table": "unicode-space-shorthand"}, impl=("E2E", [S(text), d])))
                     k += 1
+        # quoted names with a backslash escape and non-ASCII characters before and after it, in every position a name can take
+        BS = chr(92)
+        raw = ["a" + BS + "/\u00e9", "\u00e9" + BS + "/k", "C:" + BS + BS + "Benutzer" + BS + BS + "J\u00f6rg", BS + BS + "\U0001F600", "\u65e5" + BS + "/\u672c",
+               "\u00e9" + BS + BS + "\u00e9", "x" + BS + "/" + "\U0001F600y", "\u00fc" + BS + "/"]
+        def unesc(t):
+            return t.replace(BS + "/", "/").replace(BS + BS, BS)
+        members = {}
+        for t in raw:
+            members[unesc(t)] = ("i", 1)
+            members[t] = ("i", 2)
+        members["plain"] = ("i", 1)
+        row = ("o",) + tuple((S(k_), members[k_]) for k_ in sorted(members, key=lambda x: [ord(c) for c in x]))
+        nd = ("a", row, ("o", (S("in"), row)))
+        for t in raw:
+            for text in ("$[0]['%s']" % t, '$[0]["%s"]' % t, "$..['%s']" % t, "$[?@['%s']==1]" % t, "$[0]['plain','%s']" % t, "$[?@['%s']]" % t):
+                out.append(Case("e%d" % k, "STR", [S(text), nd], {"query": text, "table": "escape-then-non-ascii"}, impl=("E2E", [S(text), nd])))
+                k += 1
         return out
 
     def obs(self, items):
@@ -496,6 +568,16 @@ class C03(EvalProp):
                                 ("q", ("sel", ("slice", None, 9000, -1111))), ("q", ("sel", "wild")),
                                 ("q", ("sel", ("filter", ("atom", ("cmp", "eq", ("sq", "cur"), ("lit", ("int", 96)))))))]):
             out.append(self.make_case("H%d" % qi, q, huge))
+        # arrays of CONTAINERS: paths that pass through index 10, 100, 1000 on the way to a deeper node
+        cont = ("a",) + tuple(o_(x=("i", i), y=("a", ("i", i), o_(z=("i", i)))) for i in range(1012))
+        cwrap = o_(w=cont, v=("a",) + tuple(("a", ("i", i)) for i in range(13)))
+        for qi, q in enumerate([("q", ("desc", ("sel", ("name", S("x"))))), ("q", ("desc", ("sel", ("name", S("z"))))), ("q", ("desc", ("sel", ("idx", 0)))),
+                                ("q", ("sel", "wild"), ("sel", "wild"), ("sel", ("name", S("x")))), ("q", ("sel", ("name", S("w"))), ("sel", ("slice", 8, 12, None)), ("sel", ("name", S("y"))), ("sel", ("idx", 1))),
+                                ("q", ("desc", ("sel", ("filter", ("atom", ("cmp", "eq", ("sq", "cur", ("n", S("z"))), ("lit", ("int", 1000)))))))),
+                                ("q", ("sel", ("name", S("v"))), ("desc", ("sel", ("idx", 0)))), ("q", ("sel", ("name", S("w"))), ("sel", ("idx", 10)), ("desc", ("sel", "wild")))]):
+            out.append(self.make_case("K%d" % qi, q, cwrap))
+        # queries made of name and index selectors only, the index steps written negative: every entry point must report the real index
+        out.extend(neg_index_path_cases(self.rng, 150 if self.tier == "quick" else 1500, "N"))
         for qi, q in enumerate([("q", ("desc", ("sel", ("idx", 1005)))), ("q", ("desc", ("sel", ("slice", 100, 110, None)))),
                                 ("q", ("sel", ("name", S("m"))), ("sel", ("idx", 1)), ("sel", ("name", S("z"))), ("sel", ("idx", 207))),
                                 ("q", ("desc", ("sel", ("filter", ("atom", ("cmp", "eq", ("sq", "cur"), ("lit", ("int", 1200))))))))]):
@@ -516,6 +598,8 @@ class C03(EvalProp):
             return Verdict("ok", detail="not a successful evaluation: other properties judge this")
         if sorted(locs(I)) != sorted(locs(R)):
             return Verdict("ok", detail="nodelist differs from the RFC's: C01 judges this")
+        if c.impl is not None and "entry=0" in (ans.get("I") or [])[2:]:
+            return Verdict("violation", detail="query_only_path / query_with_path / query disagree (paths or nodes) on %r" % (c.meta.get("query"),), nontrivial=nt, key=key)
         npmap = dict(R)
         mpath = {}
         for l, p in M:
@@ -679,6 +763,15 @@ class C04(EvalProp):
                 od({"'": one}), od({"''": one}), od({"": one}), od({"'k": one}), od({"k'": one}), od({"a\\\\b": one}), od({"a\\b": one}), od({"a/b": one}),
                 od({"a\\/b": one}), od({" k": one}), od({"k ": one}), od({"k": ("i", 2)}), od({'"k"': one, "k": one}), od({"0": one}), od({"'0'": one}),
                 od({"k": od({"'j'": one})}), od({"k": od({"j": one})}), ("a", od({"'k'": one})), ("a", od({"k": one}))]
+        # arrays nested directly in arrays, inner lengths different, one a prefix of the other (and nested in objects, and deeper)
+        i1, i2, i3, i0 = ("i", 1), ("i", 2), ("i", 3), ("i", 0)
+        nest = [("a", ("a", i1, i2)), ("a", ("a", i1)), ("a", ("a",)), ("a", ("a", i0)), ("a", ("a", i1), ("a", i2)), ("a", ("a", i1, i2), ("a", i3)),
+                ("a", ("a", i1), ("a", i2, i3)), ("a", ("a", ("a", i1))), ("a", ("a", ("a", i1, i2))), ("a", ("a",), ("a",)), ("a", i1, ("a", i2)), ("a", i1, ("a", i2, i3)),
+                o_(k=("a", ("a", i1, i2))), o_(k=("a", ("a", i1))), ("a", o_(k=("a", i1, i2))), ("a", o_(k=("a", i1))), ("a", ("a", f_(1.0), i2)), ("a", ("a", i1, f_(2.0)), ("a",))]
+        nelems = [o_(x=a, y=b) for a in nest for b in nest]
+        ndoc2 = ("a",) + tuple(nelems)
+        for op in ("eq", "ne", "le", "ge", "lt"):
+            out.append(mk(filt(("cmp", op, x, y)), ndoc2, {"table": "nested-arrays", "op": op}))
         oelems = [o_(x=a, y=b) for a in objs for b in objs]
         odoc = ("a",) + tuple(oelems)
         for op in ("eq", "ne"):
@@ -747,6 +840,24 @@ class C05(EvalProp):
         for f in forms:
             out.append(self.make_case("t", ("q", ("sel", ("filter", f))), doc, {"table": "falsy"}))
             out.append(self.make_case("t", ("q", ("desc", ("sel", ("filter", f)))), doc, {"table": "falsy-desc"}))
+        return out
+
+    def cases(self):
+        out = super().cases()
+        # chains whose operands look alike when printed (a.b / ab, a[1] / a1, [1:] / [1:0], different parenthesisations): every
+        # operand counts; long chains, every position
+        one = ("i", 1)
+        docs = ("a", o_(a=o_(b=one)), o_(ab=one), o_(a=o_(b=one), ab=one), o_(a=("a", ("i", 0), one), a1=one), o_(a1=one), o_(a=("a", ("i", 0), one)),
+                ("a", one), ("a", one, one), o_(x=one), o_(y=one), o_(z=one), o_(x=one, z=one), o_(y=one, z=one), o_(x=one, y=one, z=one), ("o",),
+                o_(a=one, b=one, c=one, d=one), o_(a=one, c=one), o_(b=one, d=one), o_(a=one, b=one), o_(c=one, d=one), o_(a=one, d=one))
+        texts = ["$[?@.a.b && @.ab]", "$[?@.ab && @.a.b]", "$[?@.a.b || @.ab]", "$[?@.a[1] == 1 && @.a1 == 1]", "$[?@.a1 == 1 && @.a[1] == 1]",
+                 "$[?@.a[1] == 1 || @.a1 == 1]", "$[?@[1:] && @[1:0]]", "$[?@[1:0] || @[1:]]", "$[?@[1:] && @[1:0] && @[0]]",
+                 "$[?((@.x || @.y) && @.z) || (@.x || @.y && @.z)]", "$[?(@.x || @.y && @.z) && ((@.x || @.y) && @.z)]",
+                 "$[?(@.x || @.y && @.z) || ((@.x || @.y) && @.z)]", "$[?@.a && @.b || @.c && @.d]", "$[?@.a && @.b || @.c && @.d || @.a && @.d]",
+                 "$[?!(@.a && @.b) && @.c]", "$[?!(@.a || @.b) || @.c]", "$[?!(@.a && @.b) && !(@.c && @.d) && @.a]", "$[?@.a || @.b && @.c || @.d]",
+                 "$[?@.x && @.x]", "$[?@.x || @.x || @.y]", "$[?@.a.b && @.ab && @.a.b]", "$[?@['a.b'] || @.a.b]", "$[?@.a && @.c && @.a && @.d]"]
+        for j, text in enumerate(texts):
+            out.append(Case("pa%d" % j, "STR", [S(text), docs], {"table": "print-alike-operands", "query": text}, impl=("E2E", [S(text), docs])))
         return out
 
     def known_class(self, c, ans, I, M, R, S_, K):
@@ -860,7 +971,9 @@ class C10(EvalProp):
         BIG = ["a\\\\\\\\b", "\\\\\\\\", "[\\\\\\\\/]b", "a\\\\\\\\\\\\."]
         HUGE = [".{0,1200}", "[^>]{1,3000}", ".{0,1200}c"]
         pats |= set(BIG)
-        subs = [""] + ["".join(t) for n in (1, 2, 3) for t in itertools.product("abc", repeat=n)] + ["a\rb", "a\nb", "a.c", "(a)", "abab", "aab", "bbbb", "a\\", "]", "\r", "\n", "é", "\U0001F600", "ab\U0001F600",
+        IDIOM = [".*b.*", ".*a.*", ".*ab.*", ".*c.*", "a.*", ".*b", ".*\u00e9.*", ".*b.*|x", "(.*b.*)", ".*b.*.*"]
+        pats |= set(IDIOM)
+        subs = [""] + ["".join(t) for n in (1, 2, 3) for t in itertools.product("abc", repeat=n)] + ["b\n", "\nb", "xb\ny", "a\nb\nc", "ab\n", "\u00e9\n", "a\u2028b", "a\rb", "a\nb", "a.c", "(a)", "abab", "aab", "bbbb", "a\\", "]", "\r", "\n", "é", "\U0001F600", "ab\U0001F600",
                                                                                                   "f(1)", "max", "f(", "x", "(", ")", "|", "(x", "f(x", "a(b", "a|b", ")x", "y", "()", "ab",
                                                                                                   "a\\b", "\\", "a\\", "\\b", "a/b", "a\\."]
         doc = ("a",) + tuple(S(x) for x in subs) + (("i", 1), "null", ("a", S("a")))
@@ -868,7 +981,7 @@ class C10(EvalProp):
         pats = sorted(pats)
         if self.tier == "quick":
             pats = self.rng.sample(pats, 160) + ["^a|b$", "a)(?:b", "a.c", ".", "a|", "", "(a|b)c", "a\\\\.c", "a\\\\", "\\\\(a\\\\)", "[\\\\]]", "a\\nb",
-                                                 "[(]|x", "f[(]|x", "[)]x|y", "[|]", "a[(|)]b|c", "f\\\\(|x", "x|f\\\\(", "\\\\)|a", "(a[(]|b)c", "[(][)]|ab"] + BIG
+                                                 "[(]|x", "f[(]|x", "[)]x|y", "[|]", "a[(|)]b|c", "f\\\\(|x", "x|f\\\\(", "\\\\)|a", "(a[(]|b)c", "[(][)]|ab"] + BIG + IDIOM
         for p in pats:
             for fn in ("match", "search"):
                 q = ("q", ("sel", ("filter", ("atom", ("atest", ("tfn", (fn, ("argt", ("rel",)), ("argl", ("str", S(p))))), 0)))))
@@ -907,6 +1020,20 @@ class C10(EvalProp):
                 out.append(self.make_case("t", filt(("cmp", op, ("fn", ("length", ("argt", ("tfn", ("value", XS))))), ("lit", ("int", n)))), doc, {"fn": "length-value"}))
         for l in V_SCALAR:
             out.append(self.make_case("t", filt(("cmp", "eq", ("fn", ("length", ("argl", lit_of(l)))), ("lit", ("int", 1)))), ("a", ("i", 0)), {"fn": "length-lit"}))
+        # arguments that reach their node through a negative index (from @ and from $), alone and after names
+        ndoc = ("a", ("a", S("ru"), S("en"), S("rust")), ("a", S("x")), ("a",), o_(tags=("a", S("a"), S("ru")), k=("a", ("a", ("i", 1), ("i", 2)))), S("str"), ("a", ("a", ("i", 1)), ("a", ("i", 1), ("i", 2), ("i", 3))))
+        for idx in (-1, -2, -3, 0, 1):
+            A1 = ("argt", ("rel", ("sel", ("idx", idx))))
+            A2 = ("argt", ("rel", ("sel", ("name", S("tags"))), ("sel", ("idx", idx))))
+            A3 = ("argt", ("rel", ("sel", ("idx", idx)), ("sel", ("idx", -1))))
+            for arg in (A1, A2, A3):
+                for n in range(0, 5):
+                    out.append(self.make_case("t", filt(("cmp", "eq", ("fn", ("length", arg)), ("lit", ("int", n)))), ndoc, {"fn": "length-neg-index"}))
+                    out.append(self.make_case("t", filt(("cmp", "eq", ("fn", ("count", arg)), ("lit", ("int", n)))), ndoc, {"fn": "count-neg-index"}))
+                out.append(self.make_case("t", filt(("cmp", "eq", ("fn", ("value", arg)), ("lit", ("str", S("ru"))))), ndoc, {"fn": "value-neg-index"}))
+                for fn in ("match", "search"):
+                    q = ("q", ("sel", ("filter", ("atom", ("atest", ("tfn", (fn, arg, ("argl", ("str", S("ru.*"))))), 0)))))
+                    out.append(self.make_case("t", q, ndoc, {"fn": fn + "-neg-index"}))
         # nodelists in which the same node occurs several times: count() counts nodes, not locations; value() needs exactly one node
         dup_doc = ("a", ("a",), ("a", ("i", 7)), ("a", ("i", 1), ("i", 2)), ("a", ("i", 1), ("i", 2), ("i", 3)), o_(a=("i", 1)), o_(a=("i", 1), b=("i", 2)),
                    ("a", ("a", ("i", 1)), ("a", ("i", 2))), ("i", 5))
@@ -1129,6 +1256,9 @@ class C07(ParseProp):
                   "blank space after . / .. / a function name (accepted by the grammar, refused by parser.rs) and more (RejectFacts/RejectMore/RejectRange/RejectBlank: the grammar of the run executed on a fixed prefix with the rest symbolic). "
                   "For EVERY input string: an accepted query contains no control character other than TAB/LF/CR, i.e. such a character anywhere in "
                   "the input is rejected (C07_control_char_anywhere_rejected: PegAlpha.v, a generic theorem on what a successful match consumes, instantiated on the grammar of the run). "
+                  "For EVERY input and EVERY token of the pair tree the matcher hands to parser.rs (PegTree.run_subtree: each pair is witnessed by a successful run of its own rule over its own span): "
+                  "an int token is a canonical integer (no leading zero, no -0) and, when parse::<i64> reads it as z, it IS the decimal text of z; a string token is a quote, a body without characters below U+0020, and the same quote; "
+                  "shorthand and function names, number literals, true/false/null, comparison operators and the segments of singular queries have exactly their RFC shapes (TokenFacts/TokenMore/TokenSeg/TokenOps/TokenStr/IntCanon). "
                   "The whole-language rejection theorem is NOT proved (partial).")
     level_note = "whole-language inversion not proved (partial); the reference recogniser is a human transcription of the ABNF; extension-function calls are outside the property"
     rule = ("every case is a single-token edit (delete/insert/substitute/swap/duplicate a character, blank space anywhere, digit edits around 0, "
@@ -1424,6 +1554,20 @@ class C09(PropCheck):
                     r = self.rng.choice(self.REPL)
                     out.append(Case("c%d" % cid, "REF", [d, S(text), r], {"path": text, "why": why, "plain": loc_plain_py(loc)}))
                     cid += 1
+        # very deep locations: Normalized Paths of 127 to 201 steps
+        for depth in (127, 128, 129, 140, 200):
+            dd = nest_doc(depth, leaf=("o", (S("leaf"), ("i", 1))))
+            loc = tuple(("i", 0) if i % 2 == 0 else ("n", "a") for i in reversed(range(depth)))
+            for l2 in (loc, loc + (("n", "leaf"),), loc[:-1], loc + (("n", "nope"),)):
+                out.append(Case("c%d" % cid, "REF", [dd, S(np_text(l2)), self.rng.choice(self.REPL)], {"path": "depth %d" % len(l2), "why": "deep", "plain": True}))
+                cid += 1
+        # member names that look like query syntax (two dots, dot-star, bracket-star, bracket-question mark, ...)
+        odd = ["archive..tar", "a.*b", "items[*]", "q[?x", "..", ".*", "[*", "[?", "a..", "*", "?", "$", "@", "a[0]", "x.y", "[", "]", "(", "a,b", "a:b", "1:2", "-1", "&&", "||", "!", "=="]
+        od = ("o",) + tuple((S(k_), ("o", (S(k_), ("a", ("i", 1), ("o", (S("in"), ("i", 2))))))) for k_ in sorted(odd, key=lambda x: [ord(c) for c in x]))
+        for k_ in odd:
+            for l2 in ((("n", k_),), (("n", k_), ("n", k_)), (("n", k_), ("n", k_), ("i", 1), ("n", "in")), (("n", k_), ("n", "zz")), (("n", k_ + "x"),)):
+                out.append(Case("c%d" % cid, "REF", [od, S(np_text(l2)), self.rng.choice(self.REPL)], {"path": np_text(l2), "why": "syntax-like-name", "plain": True}))
+                cid += 1
         # long arrays: index steps of two, three and four digits
         big = ("a",) + tuple(("i", i) for i in range(1234))
         for d, pre, ploc in ((big, "$", ()), (o_(k=big, j=("a", big)), "$['k']", (("n", "k"),)), (o_(k=big, j=("a", big)), "$['j'][0]", (("n", "j"), ("i", 0)))):
@@ -1591,6 +1735,8 @@ class C12(PropCheck):
                 d = gh.add_decoys(d, ("q",) + tuple(spelled))
             out.append(Case("e%d" % k, "E2E", [S(text), d], {"entry": True, "query": text}))
             k += 1
+        for c in neg_index_path_cases(self.rng, n * 2, "en"):
+            out.append(Case(c.id, "E2E", list(c.impl[1]), {"entry": True, "query": c.meta["query"]}))
         return out
 
     def judge(self, c, ans):
@@ -1726,6 +1872,25 @@ class C15(EvalProp):
                          (("argt", ("abs", ("sel", ("name", S("list"))))), ("argt", ("abs", ("sel", ("name", S("list"))))))):
                 q = ("q", ("sel", ("name", S("rows"))), ("sel", ("filter", ("atom", ("atest", ("tfn", ("custom", S(name)) + args), 0)))))
                 out.append(self.unsorted_case("u", q, refdoc, {"table": "permuted-objects-ext", "fn": name}))
+        # the same without any number in sight, inside arrays (an engine that compares arrays through the PartialEq of the type sees
+        # the members in the order presented)
+        SA = ob(("id", S("a")), ("tag", S("x")))
+        SB = ob(("tag", S("x")), ("id", S("a")))
+        SC = ob(("tag", S("y")), ("id", S("a")))
+        sobjs = [SA, SB, SC, ("a", SA), ("a", SB), ("a", SC), ("a", SA, SB), ("a", SB, SA), ("a", ("a", SB)), ("a", ("a", SA)), ob(("k", ("a", SA))), ob(("k", ("a", SB))),
+                 ("a", S("s"), SB, "null", ("b", 1)), ("a", S("s"), SA, "null", ("b", 1))]
+        srows = ("a",) + tuple(ob(("y", y), ("x", x)) for x in sobjs for y in sobjs)
+        for op in ("eq", "ne"):
+            out.append(self.unsorted_case("u", filt(("cmp", op, x, y)), srows, {"table": "permuted-objects-no-numbers", "op": op}))
+        # functions over strings seen through the trait: length counts Unicode scalar values, whatever the type's own notion of size
+        strs_ = ("a", S("n\u00e9"), S("abc"), S("\u65e5\u672c"), S("ab"), S(""), S("\U0001F600"), S("a\U0001F600b"), S("\u00e9\u00e9\u00e9"), ("i", 2), ("a", S("\u00e9")), ob(("\u00e9", S("\u00e9\u00e9"))))
+        cur_ = ("sq", "cur")
+        for kq in range(0, 5):
+            q = filt(("cmp", "eq", ("fn", ("length", ("argt", ("rel",)))), ("lit", ("int", kq))))
+            out.append(self.make_case("fl", q, strs_, {"table": "length-non-ascii"}))
+            out.append(self.unsorted_case("u", q, strs_, {"table": "length-non-ascii"}))
+            text = "$[?length(@) == %d]" % kq
+            out.append(Case("s", "EVAL", [q, strs_], {"query": text, "string_api": True, "table": "length-non-ascii"}, impl=("GENS", [S(text), strs_])))
         # member order is what wildcards, descendants and filters follow
         for q in (("q", ("sel", "wild")), ("q", ("desc", ("sel", "wild"))), ("q", ("sel", "wild"), ("sel", "wild")),
                   ("q", ("sel", ("filter", ("atom", ("atest", ("rel", ("sel", ("name", S("a")))), 0))))),
